@@ -4,7 +4,7 @@ from vlib import core
 from props import poolcommon as pc
 
 MANIFEST = dict(
-    text='Theorems: a cached accepted unresolved Apply job past its effective hard limit when a scan starts is failed by that scan with TimeLimitExceeded(own limit) whatever else is cached; never early; map/imap and unaccepted jobs untouched and the scan does not raise; TERM/KILL go to the owner only; job limit takes precedence; the next supervision pass restores the pool size (also size 1).',
+    text='Theorems: a cached accepted unresolved Apply job past its effective hard limit when a scan starts is failed by that scan with TimeLimitExceeded(own limit) whatever else is cached; never early; map/imap and unaccepted jobs untouched and the scan does not raise; TERM/KILL go to the owner only; job limit takes precedence; the next supervision pass restores the pool size (also size 1). Refuted with a witness (known finding): a per-job limit on a pool created without limits is enforced by nobody.',
     note='Trusted: Coq kernel; hand-written model Model/Pool.v validated on every run against the real billiard.pool parent-side code (harness/pool_driver.py: fake processes, fake clock, recorded signals); event-level atomicity; worker side and OS not modelled here (C03 covers the worker loop). Partial: that the signalled process really stops (kernel) and the worker-side reaction to TERM are validated by real-pool scenarios in the thorough tier, not proved; D14 (per-job limit on a pool without a scanner) is a known finding.',
     technique='Coq proof (invariants by induction over all event histories of an executable pool model) + differential correspondence against the real parent-side code',
     ref='5.5',
